@@ -5,6 +5,6 @@ check("C04", "model_checking",
       "Trusted: TLC, the rule R in spec/LabelScope.tla (read off docs/features.md and the property), the renderer "
       "(one item per line, checked by projecting the parsed AST back). Bound: quick <=6 items, thorough <=7 items, 2 names, depth 3; "
       "modules of 2 (thorough 3) function bodies <=5 (6) items, bodies with `return:` + result and `goto return` <=6 (7) items; "
-      "8 layouts; random modules of 1-3 functions <=61 items, nesting <=9.",
+      "8 layouts; every third (thorough: every) case also as second module of a compilation and with all items on one source line; random modules of 1-3 functions <=61 items, nesting <=9.",
       "TLA+ spec (LabelScope.tla) + TLC exhaustive enumeration, replay of every case on the real front end, TLC trace validation of hook events",
       "DESIGN.md section 5 C04")
